@@ -256,10 +256,8 @@ Definition known_sites : list string :=
   [ (* (the three saito-core sites of the pinned tree -- Network::handle_handshake_challenge#c3,
        handle_handshake_response#c3 and #c13: configuration / blockchain taken under the peers write guard --
        were repaired in /repo by fixes 49f9179 and dd4b06d and are no longer listed) *)
-    (* saito-rust main.rs: three `configs_clone.read().await...` temporaries in the argument list of one
-       Context::new(..) statement: the 2nd and 3rd read are taken while the earlier read guards are alive *)
-    "saito_rust::main::run_utxo_to_issuance_converter#2";
-    "saito_rust::main::run_utxo_to_issuance_converter#3";
+    (* (saito-rust main.rs run_utxo_to_issuance_converter#2 / #3 -- three configuration read guards alive in one
+       Context::new(..) statement -- were repaired in /repo by fix 9007b23 and are no longer listed) *)
     (* saitowasm.rs, under the SAITO gate -- but the gate is not universal (WasmWallet::*, WasmBlockchain::*
        and initialize take wallet / blockchain / configuration locks without it):
        wallet write guard, then configuration read, then blockchain read *)
@@ -273,9 +271,7 @@ Definition known_sites : list string :=
 (* the listed sites with the exact (held, acquired) pairs that make them findings: a listed site does not
    excuse a different violation at the same place (checked by [pairs_pinned], props/C20.v) *)
 Definition known_pairs : list (string * lock * lock) :=
-  [ ("saito_rust::main::run_utxo_to_issuance_converter#2", LCfg, LCfg);
-    ("saito_rust::main::run_utxo_to_issuance_converter#3", LCfg, LCfg);
-    ("saito_wasm::saitowasm::create_transaction#2", LWallet, LCfg);
+  [ ("saito_wasm::saitowasm::create_transaction#2", LWallet, LCfg);
     ("saito_wasm::saitowasm::create_transaction#3", LWallet, LBlockchain);
     ("saito_wasm::saitowasm::create_transaction_with_multiple_payments#2", LWallet, LCfg);
     ("saito_wasm::saitowasm::create_transaction_with_multiple_payments#3", LWallet, LBlockchain);
